@@ -129,7 +129,9 @@ func makeSlot(rg *mon.Rng, ti int, t gen.Tok, kind string, hostile bool, b *gen.
 		}
 		v := f
 		if hostile {
-			v = []float64{1.5, -2.25, 1e300, 1e-7, math.NaN(), math.Inf(1), math.Inf(-1), 0, 3}[rg.Intn(9)]
+			v = []float64{1.5, -2.25, 1e300, 1e-7, math.NaN(), math.Inf(1), math.Inf(-1), 0, 3,
+				9223372036854775808, -9223372036854775808, 9223372036854774784, 18446744073709551616, 4611686018427387904, 9007199254740993, 2147483648, 4294967296,
+				1e21, 1e20, 123456789012345678, 0.1, 1e-320, math.MaxFloat64, math.SmallestNonzeroFloat64, 16777217, 33554433.5}[rg.Intn(26)]
 		}
 		if rg.Bool() {
 			s.value = v
